@@ -50,7 +50,7 @@ from rtc import harness
 ALPHA = "[]()'\"\\/.&*!=^$%<>~:, +-ab1"
 assert len(ALPHA) == 27 and len(set(ALPHA)) == 27
 NA = len(ALPHA)
-CASE_TIMEOUT = 5.0          # seconds; one parse of a <= 40 character string takes microseconds
+CASE_TIMEOUT = float(os.environ.get("C14_CASE_TIMEOUT", "5.0"))   # seconds; one parse of a <= 40 character string takes microseconds
 PKG_DIR = os.path.dirname(os.path.abspath(yamlpath.__file__))
 PKG_PREFIX = PKG_DIR + os.sep
 
